@@ -77,6 +77,21 @@ def gen_pool(rng):
                          'rhs': rnd(rng, 1.0, 4.0)})
         else:
             cons.append({'t': 'const', 'vi': rng.randrange(nv), 'rhs': rnd(rng, 0.5, 2.0) * (1 if rng.random() < 0.8 else -1)})
+    # further documented forms: concave >=, max of two functions, slices, sums, a scaled piecewise-linear term
+    for _ in range(rng.randint(1, 3)):
+        r = rng.random()
+        vi = rng.randrange(nv)
+        ones = [j for j in range(nv) if variables[j]['n'] == 1 and j != vi]
+        if r < 0.2:
+            cons.append({'t': 'min', 'vi': vi, 'rhs': rnd(rng, 0.5, 3.0)})
+        elif r < 0.45 and ones:
+            cons.append({'t': 'max2', 'vi': vi, 'vj': rng.choice(ones), 'shift': rnd(rng), 'rhs': rnd(rng, 0.5, 3.0)})
+        elif r < 0.6:
+            cons.append({'t': 'slice', 'vi': vi, 'k': rng.randint(1, variables[vi]['n']), 'rhs': rnd(rng, 0.5, 3.0)})
+        elif r < 0.8:
+            cons.append({'t': 'sum', 'vi': vi, 'rel': rng.choice(['<=', '>=', '==']), 'rhs': rnd(rng, 0.5, 2.0)})
+        else:
+            cons.append({'t': 'scaledabs', 'vi': vi, 'a': rng.choice([2.0, 0.5, 3.0]), 'rhs': rnd(rng, 1.0, 4.0)})
     objs = []
     for _ in range(rng.randint(2, 3)):
         k = rng.randint(1, min(3, nv))
@@ -91,6 +106,8 @@ def gen_pool(rng):
     if big:
         objs.append({'t': 'vector', 'vi': rng.choice(big)})
     objs.append({'t': 'concave', 'vi': rng.choice(ones)})
+    objs.append({'t': 'maxaff', 'vi': rng.choice(ones), 'a': rnd(rng, 0.5, 2.0), 'b': rnd(rng, 0.5, 2.0), 'c': rnd(rng)})
+    objs.append({'t': 'sumvar', 'vi': rng.randrange(nv), 'sign': rng.choice([1.0, -1.0])})
     return {'variables': variables, 'constraints': cons, 'objectives': objs}
 
 
@@ -102,8 +119,10 @@ def spec_vars(spec):
     t = spec['t']
     if t == 'aff':
         return [vi for vi, _ in spec['terms']]
-    if t in ('max', 'abs', 'var', 'vector', 'concave'):
+    if t in ('max', 'abs', 'var', 'vector', 'concave', 'min', 'slice', 'sum', 'scaledabs', 'maxaff', 'sumvar'):
         return [spec['vi']]
+    if t == 'max2':
+        return [spec['vi'], spec['vj']]
     if t == 'sumabs':
         return [spec['vi']] + ([spec['extra']] if spec.get('extra') is not None else [])
     return []      # const / num
@@ -181,6 +200,19 @@ def build(pool):
             if s.get('extra') is not None:
                 f = f + vs[s['extra']]
             c = (f <= s['rhs'])
+        elif t == 'min':
+            c = (M.min(vs[s['vi']]) >= -s['rhs'])
+        elif t == 'max2':
+            c = (M.max(vs[s['vi']], vs[s['vj']] + s['shift']) <= s['rhs'])
+        elif t == 'slice':
+            c = (vs[s['vi']][:s['k']] <= s['rhs'])
+        elif t == 'sum':
+            f = M.sum(vs[s['vi']])
+            c = (f <= s['rhs']) if s['rel'] == '<=' else ((f >= -s['rhs']) if s['rel'] == '>=' else (f == s['rhs'] * 0.25))
+        elif t == 'scaledabs':
+            f = abs(vs[s['vi']])
+            f *= s['a']
+            c = (M.sum(f) <= s['rhs'])
         else:
             c = (0 * vs[s['vi']] <= s['rhs'])
         cons.append(c)
@@ -201,6 +233,11 @@ def build(pool):
             return vs[s['vi']]
         if t == 'num':
             return s['v']
+        if t == 'maxaff':
+            x = vs[s['vi']]
+            return M.max(s['a'] * x + s['c'], -s['b'] * x)
+        if t == 'sumvar':
+            return s['sign'] * M.sum(vs[s['vi']])
         if t == 'vector':
             return vs[s['vi']]
         return -abs(vs[s['vi']])
@@ -399,7 +436,7 @@ def prob_objective_for_fresh(M, mkobj, pool, m_obj):
 
 def pool_type(pool, ci):
     s = pool['constraints'][ci]
-    return '=' if (s['t'] == 'aff' and s['rel'] == '==') else '<'
+    return '=' if (s['t'] in ('aff', 'sum') and s['rel'] == '==') else '<'
 
 
 def solve_once(prob, fmt):
